@@ -357,7 +357,28 @@ func plantFaults(t *rapid.T, set *ymodel.Set) []string {
 	k := rapid.IntRange(1, 3).Draw(t, "faults")
 	for i := 0; i < k; i++ {
 		m := set.Modules[rapid.IntRange(0, len(set.Modules)-1).Draw(t, "fault-module")]
-		switch rapid.IntRange(0, 6).Draw(t, "fault-kind") {
+		switch rapid.IntRange(0, 7).Draw(t, "fault-kind") {
+		case 7: // several errors that carry one position (the module statement) and texts that agree up to a later
+			// colon: bases that do not resolve behind one prefix, some named twice; in identities and identityrefs
+			owner := set.Owner(m)
+			if owner == nil {
+				owner = m
+			}
+			pfx := owner.Prefix
+			if len(m.Imports) > 0 && rapid.Bool().Draw(t, "unresolved-foreign") {
+				pfx = m.Imports[rapid.IntRange(0, len(m.Imports)-1).Draw(t, "unresolved-import")].Prefix
+			}
+			k := rapid.IntRange(2, 4).Draw(t, "unresolved-bases")
+			inLeaves := rapid.Bool().Draw(t, "unresolved-in-leaves")
+			for j := 0; j < k+1; j++ {
+				base := fmt.Sprintf("%s:nosuchbase%d", pfx, j%k) // the last one repeats the first
+				if inLeaves {
+					m.Nodes = append(m.Nodes, &ymodel.Node{Kind: ymodel.KLeaf, Name: fmt.Sprintf("ubl%d-%d", i, j), Type: &ymodel.TypeRef{Name: "identityref", Base: base}})
+				} else {
+					m.Identities = append(m.Identities, &ymodel.Identity{Name: fmt.Sprintf("ubi%d-%d", i, j), Bases: []string{base}})
+				}
+			}
+			feats = append(feats, "unresolved-bases-one-position")
 		case 4: // typedef cycle whose links run directly, through a union or through a union in a union
 			k := rapid.IntRange(2, 3).Draw(t, "cycle-len")
 			for j := 0; j < k; j++ {
